@@ -323,8 +323,21 @@ def chainsettle(rng):
         if rng.random() < 0.7:
             ops.append({"op": "claim" if rng.random() < 0.7 else "fail", "pay": k})
     ops += _deliveries(rng, dirs, rng.randrange(0, 6))
-    ops += [{"op": "hold_events", "node": i, "on": False} for i in range(n)]
-    ops.append({"op": "settle_chain"})
+    if rng.random() < 0.35:
+        # a user who keeps refusing payment events while the chain resolves the HTLCs, then a restart from the
+        # manager written before that: the terminal events must come (again) afterwards
+        z = rng.randrange(n)
+        # (only for a few blocks: a refused event keeps every later event of that node waiting, and with them the
+        # completion actions its channels depend on)
+        ops += [{"op": "hold_events", "node": i, "on": i == z, "kinds": "failed"} for i in range(n)]
+        ops.append({"op": "settle_chain", "keep_holds": True, "blocks": rng.randrange(7, 13)})
+        ops.append({"op": "crash", "node": z, "mgr": rng.choice([0, 0, 1]), "mon": "latest"})
+        ops += [{"op": "reconnect", "a": a, "b": b} for (a, b) in pairs]
+        ops.append({"op": "hold_events", "node": z, "on": False})
+        ops.append({"op": "settle_chain"})
+    else:
+        ops += [{"op": "hold_events", "node": i, "on": False} for i in range(n)]
+        ops.append({"op": "settle_chain"})
     ops += [{"op": "proj", "final": True}]
     return {"cfg": cfg, "ops": ops}
 
